@@ -11,6 +11,13 @@
 // strings cleared and re-allocated, copy-assigned a value of exactly their own
 // size, built by hundreds of appends, a stream grown to >= 64 KiB, cut back to
 // <= 256 bytes and appended to beyond its capacity; same enumeration, same monitors.
+// same_storage phase: the table on targets (four buffer types, strings) that were
+// copy-constructed / moved from a copy into storage that was not zero before
+// (0x5A, 0xFF, random bytes, the remains of a destroyed object of the same type
+// whose heap block the successor gets), mostly in heap mode, half of the objects
+// 8 bytes into their block (8 mod 16).  soak phase: 70000 consecutive calls per
+// case on the same long-lived objects, two in three with an injected failure,
+// exact model after every call.
 #include "vrt.h"
 #include "vrt_alloc.h"
 #include "vrt_st.h"
@@ -35,15 +42,129 @@ static void fail(const char *what, const std::string &detail)
     vrt::violation(sfmt("C19:%s:%s", g_op.c_str(), what), sfmt("failing allocation #%lld of the call, fixtures %s: %s", static_cast<long long>(g_k), g_variant.c_str(), detail.c_str()));
 }
 
+// ---- where the fixture objects live (same_storage / soak phases) -----------------------------------------------------
+// What the storage of an object held before the object was constructed in it, and whether the object starts at the beginning
+// of its block (16-byte aligned) or 8 bytes in (8 mod 16: a member behind an int, the second of a pair).  Off in the phases
+// that existed before: there the blocks are what malloc returns (under ASan: filled with 0xbe).
+enum { F_ASIS, F_5A, F_FF, F_RANDOM_NONZERO, F_RANDOM, F_SHORT_PREDECESSOR, F_LONG_PREDECESSOR, F_ZERO, N_FILL };
+static const char *const fill_names[] = {"as malloc returned it", "0x5A", "0xFF", "random non-zero bytes", "random bytes", "an object with a short value lived and died there",
+                                         "an object with a long value of the same size lived and died there (its heap block is offered to the successor)", "zero"};
+struct Place {
+    bool on = false;
+    unsigned fill = F_ASIS;
+    unsigned at8mask = 0;         // bit (n % 16): the n-th object made for this fixture starts 8 bytes into its block
+    unsigned made = 0;
+    size_t pred_units = 40;       // F_LONG_PREDECESSOR: how long the predecessor's value is
+    const void *pred_data = nullptr;   // ... and where its heap block was
+    Rng rng{1};
+    // plain tallies (the fixtures are built inside a library scope: no counter map there); flushed by the phase
+    uint64_t n_at8 = 0, n_objects = 0, n_pred_block_reused = 0, n_pred_blocks = 0;
+};
+static Place g_place;
+
+template <typename T> struct is_st_buffer { enum { value = 0 }; };
+template <typename C> struct is_st_buffer<ST::buffer<C>> { enum { value = 1 }; typedef C unit; };
+
 template <typename T>
-struct Obj {           // an object in a heap block of exactly sizeof(T) bytes
+struct Obj {           // an object in a heap block of exactly sizeof(T) bytes (or, placed: sizeof(T) + 8 with the object at + 8)
     T *p = nullptr;
-    template <typename... A> void make(A &&...a) { void *m = malloc(sizeof(T)); p = new (m) T(std::forward<A>(a)...); }
-    void kill() { if (p) { p->~T(); free(p); p = nullptr; } }
+    void *base = nullptr;
+    void *room()
+    {
+        Place &pl = g_place;
+        size_t shift = 0;
+        if (pl.on && alignof(T) <= 8 && ((pl.at8mask >> (pl.made % 16)) & 1)) shift = 8;
+        base = malloc(sizeof(T) + shift);
+        if (!base) { fprintf(stderr, "oom harness: out of memory\n"); _exit(98); }
+        unsigned char *m = static_cast<unsigned char *>(base) + shift;
+        if (pl.on) {
+            ++pl.made;
+            ++pl.n_objects;
+            if (shift) ++pl.n_at8;
+            switch (pl.fill) {
+            case F_ASIS: break;
+            case F_FF: memset(m, 0xFF, sizeof(T)); break;
+            case F_RANDOM_NONZERO: for (size_t i = 0; i < sizeof(T); ++i) m[i] = static_cast<unsigned char>(1 + pl.rng.below(255)); break;
+            case F_RANDOM: for (size_t i = 0; i < sizeof(T); ++i) m[i] = static_cast<unsigned char>(pl.rng.below(256)); break;
+            case F_ZERO: memset(m, 0, sizeof(T)); break;
+            default: memset(m, 0x5A, sizeof(T)); break;
+            }
+            pl.pred_data = nullptr;
+            if (pl.fill == F_SHORT_PREDECESSOR || pl.fill == F_LONG_PREDECESSOR) predecessor(m, pl.fill == F_LONG_PREDECESSOR);
+        }
+#ifdef VRT_HAVE_ASAN
+        if (shift) vrt::__asan_poison_memory_region(base, shift);
+#endif
+        return m;
+    }
+    // an earlier object of the same type that lived at this address and is gone: its inline bytes stay behind, and (long
+    // value) its heap block is parked for the next request of that size - the successor's
+    static void predecessor(void *at, bool long_value)
+    {
+        Place &pl = g_place;
+        if constexpr (std::is_same<T, ST::string>::value) {
+            const size_t n = long_value ? std::max<size_t>(pl.pred_units, 16) : 15;
+            ST::string *q = new (at) ST::string(ST::string::fill(n, 'P'));
+            if (long_value) { pl.pred_data = q->c_str(); vrt::placement_force_parks() = 1; }
+            q->~string();
+        } else if constexpr (is_st_buffer<T>::value) {
+            typedef typename is_st_buffer<T>::unit C;
+            const size_t limit = (sizeof(T) - 16) / sizeof(C);
+            const size_t n = long_value ? std::max<size_t>(pl.pred_units, limit) : limit - 1;
+            T *q = new (at) T(n, C('P'));
+            if (long_value) { pl.pred_data = q->data(); vrt::placement_force_parks() = 1; }
+            q->~T();
+        } else if constexpr (std::is_same<T, ST::string_stream>::value) {
+            ST::string_stream *q = new (at) ST::string_stream();
+            q->append_char('P', long_value ? ST_STACK_STRING_SIZE + 300 : ST_STACK_STRING_SIZE);
+            q->~string_stream();
+        }
+        vrt::placement_force_parks() = 0;
+    }
+    template <typename... A> void make(A &&...a) { void *m = room(); p = new (m) T(std::forward<A>(a)...); }
+    void kill()
+    {
+        if (!p) return;
+        p->~T();
+#ifdef VRT_HAVE_ASAN
+        if (base != static_cast<void *>(p)) vrt::__asan_unpoison_memory_region(base, 8);
+#endif
+        free(base);
+        p = nullptr;
+        base = nullptr;
+    }
     bool inside(const void *q) const { const char *c = static_cast<const char *>(q), *lo = reinterpret_cast<const char *>(p); return c >= lo && c < lo + sizeof(T); }
     T &operator*() { return *p; }
     T *operator->() { return p; }
 };
+
+// How a target object of the same_storage phase came to hold its value.  Everything except OR_DIRECT goes through the copy
+// constructor from a long source, which leaves the in-object array of the copy as the storage was before.
+enum { OR_DIRECT, OR_COPY, OR_COPY_THEN_MOVED, OR_MOVE_ASSIGNED_FROM_COPY, OR_COPY_OF_COPY, N_ORIGIN };
+static const char origin_letters[] = "dcmaC";
+static ST::string obj_of(const S &v, ST::string *) { return ST::string::from_validated(v.data(), v.size()); }
+template <typename C> static ST::buffer<C> obj_of(const std::basic_string<C> &v, ST::buffer<C> *) { return ST::buffer<C>(v.data(), v.size()); }
+static const void *data_of(const ST::string &s) { return s.c_str(); }
+template <typename C> static const void *data_of(const ST::buffer<C> &b) { return b.data(); }
+
+template <typename T, typename V>
+static void build(Obj<T> &o, const V &v, unsigned origin)
+{
+    Place &pl = g_place;
+    pl.pred_units = v.size();
+    const T src(obj_of(v, static_cast<T *>(nullptr)));
+    switch (origin) {
+    case OR_COPY:
+        o.make(src);
+        if (pl.pred_data) { ++pl.n_pred_blocks; if (data_of(*o) == pl.pred_data) ++pl.n_pred_block_reused; }
+        break;
+    case OR_COPY_THEN_MOVED: { Obj<T> tmp; tmp.make(src); o.make(std::move(*tmp)); tmp.kill(); break; }
+    case OR_MOVE_ASSIGNED_FROM_COPY: { Obj<T> tmp; tmp.make(src); o.make(); *o = std::move(*tmp); tmp.kill(); break; }
+    case OR_COPY_OF_COPY: { Obj<T> tmp; tmp.make(src); o.make(*tmp); tmp.kill(); break; }
+    default: o.make(obj_of(v, static_cast<T *>(nullptr))); break;
+    }
+    pl.pred_data = nullptr;
+}
 
 
 // ---- scale fixtures --------------------------------------------------------------------------------------------------
@@ -164,23 +285,32 @@ struct Fix {
     size_t slack = 100000;           // sanity bound on a reported size before it is used to read the object (more than any operation of the table adds)
     S blob;                          // harness-side bytes, longer than twice the stream's capacity
 
-    void setup(Rng &rng, bool long_target, bool long_arg)
+    // origin: how each of the seven target objects gets its value (same_storage phase; nullptr: as in the other phases)
+    void setup(Rng &rng, bool long_target, bool long_arg, const unsigned *origin = nullptr)
     {
         r = &rng;
         auto text = [&](size_t n) { S t; while (t.size() < n) { if (rng.chance(1, 5)) ref::enc_utf8(t, 0xE9); else t += static_cast<char>('a' + rng.below(26)); } return t; };
         sv[0] = text(long_target ? 40 + rng.below(30) : rng.below(15));
         sv[1] = text(long_arg ? 30 + rng.below(300) : 1 + rng.below(14));
         sv[2] = long_arg ? S("a, b,c ,, ") + text(30) + ", tail of a longer piece" : S("a,b c");
-        for (int i = 0; i < 3; ++i) s[i].make(ST::string::from_validated(sv[i].data(), sv[i].size()));
         cbv = sv[1];
-        cb.make(cbv.data(), cbv.size());
         ref::Decoded d = ref::decode_utf8(sv[1]);
         ref::to_utf16(d, false, b16v);
         ref::to_utf32(d, false, b32v);
         bwv.assign(b32v.begin(), b32v.end());
-        b16.make(b16v.data(), b16v.size());
-        b32.make(b32v.data(), b32v.size());
-        bw.make(bwv.data(), bwv.size());
+        if (origin) {
+            for (int i = 0; i < 3; ++i) build(s[i], sv[i], origin[i]);
+            build(cb, cbv, origin[3]);
+            build(b16, b16v, origin[4]);
+            build(b32, b32v, origin[5]);
+            build(bw, bwv, origin[6]);
+        } else {
+            for (int i = 0; i < 3; ++i) s[i].make(ST::string::from_validated(sv[i].data(), sv[i].size()));
+            cb.make(cbv.data(), cbv.size());
+            b16.make(b16v.data(), b16v.size());
+            b32.make(b32v.data(), b32v.size());
+            bw.make(bwv.data(), bwv.size());
+        }
         cbc.make(*cb); cbcv = cbv;
         sc.make(*s[1]); scv = sv[1];
         b32c.make(*b32); b32cv = b32v;
@@ -295,7 +425,7 @@ struct Fix {
             fail("stream-neither-previous-nor-empty", sfmt("size %zu was %zu", n, ssv.size()));
     }
     // every fixture: still valid, previous value or empty; then assigned to, read, (destroyed in teardown)
-    void verify_after_fault()
+    void check_all()
     {
         va::HarnessScope hs;
         for (int i = 0; i < 3; ++i) if (s[i].p) check_string(i == 0 ? "target string" : "argument string", s[i], sv[i]);
@@ -307,6 +437,12 @@ struct Fix {
         if (cbc.p) check_buffer<char>("copy-constructed char_buffer", cbc, cbcv);
         if (b32c.p) check_buffer<char32_t>("copy-constructed utf32_buffer", b32c, b32cv);
         if (sc.p) check_string("copy-constructed string", sc, scv);
+    }
+    bool all_alive() const { return s[0].p && s[1].p && s[2].p && cb.p && b16.p && b32.p && bw.p && ss.p && cbc.p && b32c.p && sc.p; }
+    void verify_after_fault()
+    {
+        va::HarnessScope hs;
+        check_all();
         // can still be assigned to and read
         if (s[0].p) { *s[0] = ST::string("assigned after the fault, long enough for the heap"); if (s[0]->size() != 50) fail("unusable-after-fault", "target string"); }
         if (cb.p) { *cb = ST::char_buffer("xyz", 3); if (cb->size() != 3) fail("unusable-after-fault", "char_buffer"); }
@@ -353,6 +489,13 @@ static std::vector<Op> table()
     OP("copy-constructed utf32_buffer=utf32_buffer (long source)", ST::utf32_buffer src(60, U'z'); *f.b32c = src; E(f.b32cv.assign(60, U'z')));
     OP("copy-constructed string=string", *f.sc = *f.s[2]; E(f.scv = f.sv[2]));
     OP("copy-constructed string.set(const char*)", f.sc->set(f.sv[2].c_str()); E(f.scv = f.sv[2]));
+    OP("copy-constructed char_buffer.allocate(n)", f.cbc->allocate(100); memset(f.cbc->data(), 'k', 100); E(f.cbcv.assign(100, 'k')));
+    OP("copy-constructed utf32_buffer.allocate(n,fill)", f.b32c->allocate(64, U'k'); E(f.b32cv.assign(64, U'k')));
+    OP("copy-constructed string.set_validated(const char_buffer&)", f.sc->set_validated(*f.cb); E(f.scv = f.cbv));
+    OP("utf16_buffer.allocate(n)", f.b16->allocate(90); for (size_t i = 0; i < 90; ++i) (*f.b16)[i] = u'k'; E(f.b16v.assign(90, u'k')));
+    OP("utf32_buffer.allocate(n)", f.b32->allocate(90); for (size_t i = 0; i < 90; ++i) (*f.b32)[i] = U'k'; E(f.b32v.assign(90, U'k')));
+    OP("char_buffer.allocate(exactly the inline limit)", f.cb->allocate(16, 'k'); E(f.cbv.assign(16, 'k')));
+    OP("wchar_buffer.allocate(exactly the inline limit)", f.bw->allocate(12, L'k'); E(f.bwv.assign(12, L'k')));
     OP("utf32_to_wchar / wchar_to_utf32 (straight copies)", ST::wchar_buffer a = ST::utf32_to_wchar(*f.b32); ST::utf32_buffer b = ST::wchar_to_utf32(*f.bw); ST::wchar_buffer c = ST::utf32_to_wchar(f.b32v.data(), f.b32v.size()); (void)a; (void)b; (void)c);
     OP("utf16_to_wchar / wchar_to_utf16", ST::wchar_buffer a = ST::utf16_to_wchar(*f.b16); ST::utf16_buffer b = ST::wchar_to_utf16(*f.bw); (void)a; (void)b);
     OP("char_buffer.allocate(n,0) zero fill", f.cb->allocate(100, '\0'); E(f.cbv.assign(100, '\0')));
@@ -617,6 +760,225 @@ static uint64_t enumerate_faults(const Op &op, const std::function<void(Fix &)> 
     return n;
 }
 
+// ---- soak: tens of thousands of consecutive calls on the same few long-lived objects in one process ----------------------
+// Each call runs with or without an injected failure of its k-th allocation.  The expectations are exact: after a call that
+// completed the target holds the new value, after one that failed its previous value or nothing (and says so through
+// c_str() / data() as well); what it holds then is the starting point of the next call.
+struct SoakTally {
+    uint64_t calls = 0, injected = 0, completed = 0, left_previous = 0, left_empty = 0, successors_at_same_address = 0, successor_blocks_at_same_address = 0,
+             dull_runs = 0, by_family[7] = {0, 0, 0, 0, 0, 0, 0};
+};
+static SoakTally *g_tally = nullptr;
+
+template <typename Fn>
+static bool soak_call(int64_t k, Fn &&fn)
+{
+    bool completed = false, bad = false;
+    g_k = k;
+    if (k > 0) va::fail_nth(k);
+    try {
+        va::LibScope ls;
+        fn();
+        completed = true;
+    } catch (const std::bad_alloc &) {
+        bad = true;
+    } catch (const std::exception &e) {
+        va::fail_off();
+        fail("wrong-exception", sfmt("%s: %s", vrt::demangle(typeid(e).name()).c_str(), e.what()));
+    }
+    const bool fired = va::reg().fired;
+    va::fail_off();
+    ++g_tally->calls;
+    vrt::evals();
+    if (fired) {
+        ++g_tally->injected;
+        vrt::count("faults.injected");
+        if (bad) vrt::count("faults.bad_alloc_reached_caller");
+        if (completed) fail("bad_alloc-swallowed", "the call returned normally although one of its allocations failed");
+    } else if (bad) {
+        fail("failed-without-a-fault", "std::bad_alloc although no allocation of the call was made to fail");
+    }
+    if (completed) ++g_tally->completed;
+    return completed;
+}
+
+static S soak_text(Rng &r, size_t n)
+{
+    S t(n, 'a');
+    for (size_t i = 0; i < n; ++i) t[i] = static_cast<char>('a' + r.below(26));
+    for (size_t i = 0; i + 1 < n; i += 2 + r.below(9)) if (r.chance(1, 3)) { t[i] = '\xC3'; t[i + 1] = '\xA9'; }
+    return t;
+}
+
+// after the call: exact value when it completed, previous value or empty (readable as such) when it failed
+template <typename C>
+static bool soak_settle_buffer(Fix &f, const char *name, Obj<ST::buffer<C>> &o, std::basic_string<C> &model, const std::basic_string<C> &prev, const std::basic_string<C> &val, bool done)
+{
+    va::HarnessScope hs;
+    model = done ? val : prev;
+    f.check_buffer<C>(name, o, model);
+    if (!o.p) return false;
+    std::basic_string<C> now(o->data(), o->size());
+    if (done && now != model) fail("wrong-value-without-a-fault", sfmt("%s holds %s, expected %s", name, vrt::hex(now.data(), now.size(), sizeof(C), 30).c_str(), vrt::hex(model.data(), model.size(), sizeof(C), 30).c_str()));
+    if (!done) ++(now.empty() && !prev.empty() ? g_tally->left_empty : g_tally->left_previous);
+    model = now;
+    return true;
+}
+
+template <typename C>
+static bool soak_buffer(Fix &f, const char *name, Obj<ST::buffer<C>> &o, std::basic_string<C> &model, Rng &r, int64_t k)
+{
+    typedef ST::buffer<C> B;
+    typedef std::basic_string<C> V;
+    const size_t limit = (sizeof(B) - 16) / sizeof(C);
+    const size_t lens[] = {0, 1, limit - 1, limit, limit + 1, 40, 64, 100, 256, 300, model.size(), model.size()};
+    const size_t n = lens[r.below(12)];
+    V val(n, C('a')), prev = model;
+    for (C &c : val) c = static_cast<C>('a' + r.below(26));
+    bool done = false;
+    switch (r.below(6)) {
+    case 0: { const B src(val.data(), n); g_op = sfmt("soak: %s=%s", name, name); done = soak_call(k, [&] { *o = src; }); break; }
+    case 1: { const C fill = static_cast<C>('A' + r.below(26)); val.assign(n, fill); g_op = sfmt("soak: %s.allocate(n,fill)", name); done = soak_call(k, [&] { o->allocate(n, fill); }); break; }
+    case 2: { g_op = sfmt("soak: %s.allocate(n)", name); done = soak_call(k, [&] { o->allocate(n); }); if (done && o->size() == n) std::char_traits<C>::copy(o->data(), val.data(), n); break; }
+    case 3: { g_op = sfmt("soak: %s=temporary", name); done = soak_call(k, [&] { *o = B(val.data(), n); }); break; }
+    case 4: {       // the object dies and its successor is copy-constructed right where it was (and, same size, into its heap block)
+        const B src(val.data(), n);
+        const void *was = o->data();
+        const bool heap = o->size() >= limit;
+        vrt::placement_force_parks() = 1;
+        o.p->~B();
+        vrt::placement_force_parks() = 0;
+        g_op = sfmt("soak: %s copy-constructed where its predecessor was", name);
+        done = soak_call(k, [&] { new (o.p) B(src); });
+        if (!done) { new (o.p) B(); prev.clear(); }
+        ++g_tally->successors_at_same_address;
+        if (done && heap && o->data() == was) ++g_tally->successor_blocks_at_same_address;
+        break;
+    }
+    default: { val = prev; g_op = sfmt("soak: %s through two copies and back", name); done = soak_call(k, [&] { B copy(*o); B other(copy); *o = other; }); break; }
+    }
+    return soak_settle_buffer<C>(f, name, o, model, prev, val, done);
+}
+
+static bool soak_string(Fix &f, Rng &r, int64_t k)
+{
+    Obj<ST::string> &o = f.s[0];
+    S &model = f.sv[0];
+    const size_t lens[] = {0, 1, 15, 16, 17, 40, 64, 100, 256, 300, model.size(), model.size()};
+    const size_t n = lens[r.below(12)];
+    S val = soak_text(r, n), prev = model;
+    bool done = false;
+    unsigned what = static_cast<unsigned>(r.below(9));
+    if (model.size() > 3000 && (what == 2 || what == 5)) what = 0;
+    switch (what) {
+    case 0: { const ST::string src = ST::string::from_validated(val.data(), n); g_op = "soak: string=string"; done = soak_call(k, [&] { *o = src; }); break; }
+    case 1: g_op = "soak: string.set_validated(const char*,n)"; done = soak_call(k, [&] { o->set_validated(val.data(), n); }); break;
+    case 2: { size_t m = std::min<size_t>(n, 40); if (m && val[m - 1] == '\xC3') --m; const ST::string piece = ST::string::from_validated(val.data(), m); val = prev + val.substr(0, m); g_op = "soak: string+=string"; done = soak_call(k, [&] { *o += piece; }); break; }
+    case 3: g_op = "soak: string=const char*"; done = soak_call(k, [&] { *o = val.c_str(); }); break;
+    case 4: val = f.cbv; g_op = "soak: string.set(const char_buffer&)"; done = soak_call(k, [&] { o->set(*f.cb); }); break;
+    case 5: val = prev + f.sv[1]; g_op = "soak: string=string+string"; done = soak_call(k, [&] { *o = *o + *f.s[1]; }); break;
+    case 6: {
+        const ST::string src = ST::string::from_validated(val.data(), n);
+        const void *was = o->c_str();
+        const bool heap = o->size() >= 16;
+        vrt::placement_force_parks() = 1;
+        o.p->~string();
+        vrt::placement_force_parks() = 0;
+        g_op = "soak: string copy-constructed where its predecessor was";
+        done = soak_call(k, [&] { new (o.p) ST::string(src); });
+        if (!done) { new (o.p) ST::string(); prev.clear(); }
+        ++g_tally->successors_at_same_address;
+        if (done && heap && o->c_str() == was) ++g_tally->successor_blocks_at_same_address;
+        break;
+    }
+    case 7: val = f.sv[1]; g_op = "soak: string=argument string"; done = soak_call(k, [&] { *o = *f.s[1]; }); break;
+    default: g_op = "soak: string.set(const char*,n,substitute_invalid)"; done = soak_call(k, [&] { o->set(val.data(), n, ST::substitute_invalid); }); break;
+    }
+    va::HarnessScope hs;
+    model = done ? val : prev;
+    f.check_string("target string", o, model);
+    if (!o.p) return false;
+    S now(o->c_str(), o->size());
+    if (done && now != model) fail("wrong-value-without-a-fault", sfmt("target string holds %s, expected %s", vrt::hex(now.data(), now.size(), 1, 30).c_str(), vrt::hex(model.data(), model.size(), 1, 30).c_str()));
+    if (!done) ++(now.empty() && !prev.empty() ? g_tally->left_empty : g_tally->left_previous);
+    model = now;
+    return true;
+}
+
+static bool soak_stream(Fix &f, Rng &r, int64_t k)
+{
+    Obj<ST::string_stream> &o = f.ss;
+    S &model = f.ssv;
+    S prev = model, val = model;
+    bool done = false, read_only = false;
+    f.stream_prefix_ok = false;
+    f.stream_moved = false;
+    unsigned what = static_cast<unsigned>(r.below(8));
+    if (model.size() > 70000) what = 7;
+    switch (what) {
+    case 0: { const S piece = soak_text(r, 1 + r.below(600)); val += piece; g_op = "soak: stream.append(ptr,n)"; done = soak_call(k, [&] { o->append(piece.data(), piece.size()); }); break; }
+    case 1: { const char c = static_cast<char>('a' + r.below(26)); const size_t n = 1 + r.below(600); val.append(n, c); g_op = "soak: stream.append_char(c,n)"; done = soak_call(k, [&] { o->append_char(c, n); }); break; }
+    case 2: { const long long v = static_cast<long long>(r.next() >> (1 + r.below(62))); val += std::to_string(v); g_op = "soak: stream<<integer"; done = soak_call(k, [&] { *o << v; }); break; }
+    case 3: val += f.sv[1]; g_op = "soak: stream<<string"; done = soak_call(k, [&] { *o << *f.s[1]; }); break;
+    case 4: { const size_t m = r.below(model.size() + 2); val.resize(std::min(m, model.size())); g_op = "soak: stream.truncate(n)"; done = soak_call(k, [&] { o->truncate(m); }); break; }
+    case 5: { const size_t m = r.below(model.size() / 2 + 2); val.resize(model.size() - std::min(m, model.size())); g_op = "soak: stream.erase(n)"; done = soak_call(k, [&] { o->erase(m); }); break; }
+    case 6: {       // read as Latin-1: every byte >= 0x80 becomes two
+        S expect, got;
+        for (unsigned char c : model) { if (c < 0x80) expect += static_cast<char>(c); else { expect += static_cast<char>(0xC0 | (c >> 6)); expect += static_cast<char>(0x80 | (c & 0x3F)); } }
+        g_op = "soak: stream.to_string(latin-1)";
+        read_only = true;
+        done = soak_call(k, [&] { ST::string x = o->to_string(false); va::HarnessScope hs; got.assign(x.c_str(), x.size()); });
+        if (done && got != expect) fail("wrong-value-without-a-fault", sfmt("to_string(false) of a stream of %zu bytes returned %zu bytes, expected %zu", model.size(), got.size(), expect.size()));
+        break;
+    }
+    default: val.clear(); g_op = "soak: stream=fresh stream"; done = soak_call(k, [&] { *o = ST::string_stream(); }); break;
+    }
+    (void)read_only;
+    va::HarnessScope hs;
+    model = done ? val : prev;
+    f.check_stream();
+    if (!o.p) return false;
+    S now(o->raw_buffer(), o->size());
+    if (done && now != model) fail("wrong-value-without-a-fault", sfmt("the stream holds %zu bytes, expected %zu (first difference at %zu)", now.size(), model.size(), scale::first_diff(now, model)));
+    if (!done) ++(now.empty() && !prev.empty() ? g_tally->left_empty : g_tally->left_previous);
+    model = now;
+    return true;
+}
+
+// calls that have no target: the failure must reach the caller, the result of a completed call must be right
+static void soak_no_target(Fix &f, Rng &r, int64_t k)
+{
+    const long long v = static_cast<long long>(r.next() >> (1 + r.below(62)));
+    S got, expect;
+    switch (r.below(3)) {
+    case 0: {
+        char tail[80];
+        snprintf(tail, sizeof(tail), "|%20lld|%llx", v, static_cast<unsigned long long>(v));
+        expect = f.sv[1] + tail;
+        g_op = "soak: format(string,int,int)";
+        if (soak_call(k, [&] { ST::string x = ST::format("{}|{>20}|{x}", *f.s[1], v, v); va::HarnessScope hs; got.assign(x.c_str(), x.size()); }) && got != expect)
+            fail("wrong-value-without-a-fault", sfmt("format returned %s", vrt::hex(got.data(), got.size(), 1, 40).c_str()));
+        break;
+    }
+    case 1: {
+        static const char digits[] = "0123456789abcdef";
+        for (unsigned char c : f.cbv) { expect += digits[c >> 4]; expect += digits[c & 15]; }
+        g_op = "soak: hex_encode/hex_decode";
+        if (soak_call(k, [&] { ST::string h = ST::hex_encode(*f.cb); ST::char_buffer back = ST::hex_decode(h); va::HarnessScope hs; got.assign(h.c_str(), h.size()); if (S(back.data(), back.size()) != f.cbv) got += "?"; }) && got != expect)
+            fail("wrong-value-without-a-fault", sfmt("hex_encode returned %s", vrt::hex(got.data(), got.size(), 1, 40).c_str()));
+        break;
+    }
+    default: {
+        std::u16string u16, gotu;
+        ref::to_utf16(ref::decode_utf8(f.sv[0]), false, u16);
+        g_op = "soak: to_utf16/from_utf16";
+        if (soak_call(k, [&] { ST::utf16_buffer b = f.s[0]->to_utf16(); ST::string back = ST::string::from_utf16(b); va::HarnessScope hs; gotu.assign(b.data(), b.size()); got.assign(back.c_str(), back.size()); }) && (gotu != u16 || got != f.sv[0]))
+            fail("wrong-value-without-a-fault", sfmt("to_utf16 / from_utf16 of %zu bytes returned %zu units / %zu bytes", f.sv[0].size(), gotu.size(), got.size()));
+        break;
+    }
+    }
+}
+
 // ---- content of the scale fixtures: lengths on and next to multiples of the block sizes, a pure function of the case's Rng
 static S scale_text(Rng &r, size_t n, bool ascii_only)
 {
@@ -769,6 +1131,189 @@ static void body()
             if (cap >= 65536 && big.cut != 0 && big.keep <= 256 && strstr(op.name, "stream") && injected > 0) vrt::count("scale.stream.cut_back_then_grown_under_fault");
             vrt::distinct(vrt::fnv_u64(r.next(), vrt::fnv_str(op.name, shape + 977)));
             if (vrt::want_sample("scale") && n > 1) vrt::sample("scale", sfmt("%s, %s: %llu allocations, each failed once", op.name, g_variant.c_str(), static_cast<unsigned long long>(n)));
+        });
+    }
+
+    // same_storage: the whole table again on target objects that were COPY-constructed (or moved / move-assigned from such a
+    // copy) into storage that was not zero beforehand - 0x5A, 0xFF, random bytes, the remains of an object of the same type
+    // that lived at that address and was destroyed (its heap block, of the same size, is offered to the successor) - and that
+    // are mostly in heap mode; about half of all fixture objects start 8 bytes into their block (8 mod 16).  The copy
+    // constructor from a long source never writes the in-object array, so for these targets it holds what the storage held:
+    // after an injected failure an "empty" target must still read as empty through c_str() / data() (terminator at [size()]).
+    {
+        vrt::require("same_storage.cases", 500);
+        vrt::require("same_storage.ops_covered", ops.size());
+        vrt::require("same_storage.faults.injected", 1500);
+        vrt::require("same_storage.faults.long_targets_copied_into_nonzero_storage", 500);
+        vrt::require("same_storage.objects_at_8_mod_16", 5000);
+        vrt::require("same_storage.successor_heap_block_at_the_address_of_the_predecessor's", 50);
+        const size_t rounds = vrt::tier_count(8, 64);
+        vrt::phase("same_storage", ops.size() * rounds, [&](uint64_t idx, Rng &r) {
+            const size_t i = idx % ops.size();
+            const Op &op = ops[i];
+            const uint64_t j = idx / ops.size();
+            const bool lt = j % 8 != 7, la = j % 8 != 6;          // mostly both in heap mode
+            unsigned origin[7];
+            for (unsigned &o : origin) o = r.chance(1, 8) ? OR_DIRECT : 1 + static_cast<unsigned>(r.below(N_ORIGIN - 1));
+            const unsigned fill = static_cast<unsigned>((i + j + j / 8) % N_FILL);
+            const unsigned at8 = j % 4 == 0 ? 0xffffu : j % 4 == 1 ? 0u : static_cast<unsigned>(r.next() & 0xffff);
+            g_op = op.name;
+            g_variant = sfmt("same_storage target=%s argument=%s; storage before: %s; objects 8 bytes into their block: mask %04x; origins of the targets %c%c%c%c%c%c%c (d direct, c copy, m copy then moved, a move-assigned from a copy, C copy of a copy) filling #%llu",
+                             lt ? "long" : "short", la ? "long" : "short", fill_names[fill], at8, origin_letters[origin[0]], origin_letters[origin[1]], origin_letters[origin[2]], origin_letters[origin[3]],
+                             origin_letters[origin[4]], origin_letters[origin[5]], origin_letters[origin[6]], static_cast<unsigned long long>(j));
+            const uint64_t fixseed = r.next();
+            g_place = Place();
+            g_place.on = true;
+            g_place.fill = fill;
+            g_place.at8mask = at8;
+            const uint64_t inj0 = vrt::counter("faults.injected");
+            const uint64_t n = enumerate_faults(op, [&](Fix &f) { Rng fr(fixseed); g_place.made = 0; g_place.rng.reseed(fixseed ^ 0x5a5a5a5aull); f.setup(fr, lt, la, origin); }, UINT64_MAX, r);
+            const Place done = g_place;
+            g_place = Place();
+            const uint64_t injected = vrt::counter("faults.injected") - inj0;
+            vrt::count("same_storage.cases");
+            vrt::count("same_storage.faults.injected", injected);
+            vrt::count(sfmt("same_storage.storage_before.%u", fill));
+            if (lt && la && (fill == F_5A || fill == F_FF || fill == F_RANDOM_NONZERO || fill == F_SHORT_PREDECESSOR || fill == F_LONG_PREDECESSOR))
+                vrt::count("same_storage.faults.long_targets_copied_into_nonzero_storage", injected);
+            vrt::count("same_storage.objects", done.n_objects);
+            vrt::count("same_storage.objects_at_8_mod_16", done.n_at8);
+            vrt::count("same_storage.successor_heap_block_offered", done.n_pred_blocks);
+            vrt::count("same_storage.successor_heap_block_at_the_address_of_the_predecessor's", done.n_pred_block_reused);
+            if (idx < ops.size()) vrt::count("same_storage.ops_covered");
+            vrt::distinct(vrt::fnv_u64(fixseed, vrt::fnv_str(op.name, j + 3301)));
+            if (vrt::want_sample("same_storage") && n > 1 && lt && la) vrt::sample("same_storage", sfmt("%s, %s: %llu allocations, each failed once", op.name, g_variant.c_str(), static_cast<unsigned long long>(n)));
+        });
+    }
+
+    // soak: 70000 consecutive calls per case on the same eleven long-lived objects (copies living in storage that was not zero,
+    // some 8 bytes into their block), two calls in three with an injected failure of its first, second or third
+    // allocation; every target is compared with an exact model after every call and all objects every 64 calls.  Runs of
+    // 64..300 identical calls without a failure are followed directly by the same call with one.
+    {
+        vrt::require("soak.calls", 16 * 70000);
+        vrt::require("soak.faults.injected", 100000);
+        vrt::require("soak.target_left_empty_by_a_failed_call", 20000);
+        vrt::require("soak.target_kept_its_value_through_a_failed_call", 2000);
+        vrt::require("soak.successor_constructed_where_its_predecessor_was", 10000);
+        vrt::require("soak.successor_heap_block_where_its_predecessor's_was", 300);
+        vrt::require("soak.dull_runs_followed_by_a_failing_call", 300);
+        vrt::phase("soak", vrt::tier_count(16, 128), [&](uint64_t idx, Rng &r) {
+            SoakTally tally;
+            g_tally = &tally;
+            const size_t base = va::reg().live_lib;
+            unsigned origin[7];
+            for (unsigned &o : origin) o = r.chance(1, 8) ? OR_DIRECT : 1 + static_cast<unsigned>(r.below(N_ORIGIN - 1));
+            g_place = Place();
+            g_place.on = true;
+            g_place.fill = static_cast<unsigned>(idx % N_FILL);
+            g_place.at8mask = static_cast<unsigned>(r.next() & 0xffff);
+            g_place.rng.reseed(r.next());
+            const size_t steps = 70000;
+            char where[160];
+            {
+                Fix f;
+                {
+                    va::LibScope ls;
+                    Rng fr(r.next());
+                    f.setup(fr, true, true, origin);
+                }
+                vrt::cur_printf("soak case #%llu: %zu calls, storage before: %s\n", static_cast<unsigned long long>(idx), steps, fill_names[g_place.fill]);
+                bool alive = true;
+                for (size_t step = 0; step < steps && alive; ++step) {
+                    snprintf(where, sizeof(where), "soak case #%llu (objects copied into storage that held: %s), call %zu", static_cast<unsigned long long>(idx), fill_names[g_place.fill], step);
+                    g_variant = where;
+                    if (r.chance(1, 1000)) {
+                        // a run of identical calls that complete, then the same call with its allocation failing
+                        const size_t run = 64 + r.below(237), n = 40 + r.below(260);
+                        const unsigned which = static_cast<unsigned>(r.below(3));
+                        ++tally.dull_runs;
+                        if (which == 0) {
+                            std::string val(n, 'd'), prev;
+                            const ST::char_buffer src(val.data(), n);
+                            g_op = "soak: char_buffer=char_buffer";
+                            for (size_t q = 0; q <= run && alive; ++q) { prev = f.cbv; const bool done = soak_call(q == run ? 1 : 0, [&] { *f.cb = src; }); alive = soak_settle_buffer<char>(f, "char_buffer", f.cb, f.cbv, prev, val, done); }
+                        } else if (which == 1) {
+                            const S val = soak_text(r, n);
+                            const ST::string src = ST::string::from_validated(val.data(), n);
+                            g_op = "soak: string=string";
+                            for (size_t q = 0; q <= run && alive; ++q) {
+                                const S prev = f.sv[0];
+                                const bool done = soak_call(q == run ? 1 : 0, [&] { *f.s[0] = src; });
+                                va::HarnessScope hs;
+                                f.check_string("target string", f.s[0], done ? val : prev);
+                                alive = f.s[0].p != nullptr;
+                                if (!alive) break;
+                                const S now(f.s[0]->c_str(), f.s[0]->size());
+                                if (done && now != val) fail("wrong-value-without-a-fault", "target string after a run of identical assignments");
+                                if (!done) ++(now.empty() && !prev.empty() ? tally.left_empty : tally.left_previous);
+                                f.sv[0] = now;
+                            }
+                        } else {
+                            g_op = "soak: stream.append_char(c,n)";
+                            f.stream_prefix_ok = false;
+                            f.stream_moved = false;
+                            for (size_t q = 0; q <= run && alive; ++q) {
+                                const S prev = f.ssv;
+                                // the last one needs more room than any block the stream can have by now
+                                const size_t cnt = q == run ? 2 * f.ssv.size() + 600 : 1;
+                                const bool done = soak_call(q == run ? 1 : 0, [&] { f.ss->append_char('d', cnt); });
+                                va::HarnessScope hs;
+                                f.ssv = done ? prev + S(cnt, 'd') : prev;
+                                f.check_stream();
+                                alive = f.ss.p != nullptr;
+                                if (!alive) break;
+                                const S now(f.ss->raw_buffer(), f.ss->size());
+                                if (done && now != f.ssv) fail("wrong-value-without-a-fault", "the stream after a run of identical appends");
+                                if (!done) ++(now.empty() && !prev.empty() ? tally.left_empty : tally.left_previous);
+                                f.ssv = now;
+                            }
+                        }
+                        step += run;
+                        continue;
+                    }
+                    const int64_t k = r.chance(1, 3) ? 0 : 1 + static_cast<int64_t>(r.below(3));
+                    const unsigned family = static_cast<unsigned>(r.below(7));
+                    ++tally.by_family[family];
+                    switch (family) {
+                    case 0: alive = soak_buffer<char>(f, "char_buffer", f.cb, f.cbv, r, k); break;
+                    case 1: alive = soak_buffer<char16_t>(f, "utf16_buffer", f.b16, f.b16v, r, k); break;
+                    case 2: alive = soak_buffer<char32_t>(f, "utf32_buffer", f.b32, f.b32v, r, k); break;
+                    case 3: alive = soak_buffer<wchar_t>(f, "wchar_buffer", f.bw, f.bwv, r, k); break;
+                    case 4: alive = soak_string(f, r, k); break;
+                    case 5: alive = soak_stream(f, r, k); break;
+                    default: soak_no_target(f, r, k); break;
+                    }
+                    if (step % 64 == 63) { f.check_all(); alive = alive && f.all_alive(); }
+                }
+                f.check_all();
+                f.teardown();
+            }
+            if (va::reg().live_lib != base) {
+                g_op = "soak";
+                fail("leak", sfmt("%zu library allocations survive the destruction of every object involved", va::reg().live_lib - base));
+                va::reg().live_lib = base;
+            }
+            va::check_pairing("oom");
+            const Place placed = g_place;
+            g_place = Place();
+            g_tally = nullptr;
+            vrt::count("soak.cases");
+            vrt::count("soak.calls", tally.calls);
+            vrt::count("soak.calls.completed", tally.completed);
+            vrt::count("soak.faults.injected", tally.injected);
+            vrt::count("soak.target_left_empty_by_a_failed_call", tally.left_empty);
+            vrt::count("soak.target_kept_its_value_through_a_failed_call", tally.left_previous);
+            vrt::count("soak.successor_constructed_where_its_predecessor_was", tally.successors_at_same_address);
+            vrt::count("soak.successor_heap_block_where_its_predecessor's_was", tally.successor_blocks_at_same_address);
+            vrt::count("soak.dull_runs_followed_by_a_failing_call", tally.dull_runs);
+            vrt::count("soak.objects_at_8_mod_16", placed.n_at8);
+            static const char *const families[] = {"char_buffer", "utf16_buffer", "utf32_buffer", "wchar_buffer", "string", "string_stream", "no_target"};
+            for (int q = 0; q < 7; ++q) vrt::count(sfmt("soak.calls.%s", families[q]), tally.by_family[q]);
+            vrt::distinct(vrt::fnv_u64(idx, vrt::fnv_u64(r.next(), 3307)));
+            vrt::sample("soak", sfmt("case #%llu: %llu consecutive calls on the same objects (copies in storage that held: %s), %llu with an injected allocation failure (%llu left the target empty, %llu left it as it was), %llu completed",
+                                     static_cast<unsigned long long>(idx), static_cast<unsigned long long>(tally.calls), fill_names[placed.fill], static_cast<unsigned long long>(tally.injected),
+                                     static_cast<unsigned long long>(tally.left_empty), static_cast<unsigned long long>(tally.left_previous), static_cast<unsigned long long>(tally.completed)));
         });
     }
 }
